@@ -601,8 +601,40 @@ func ruleNumParse(c *Ctx) {
 	}
 	info := c.pkg("interp").TypesInfo
 	// white space: which classifier each side uses
+	var wsOfD func(fd *ast.FuncDecl, depth int, seen map[*ast.FuncDecl]bool) (tables []string, calls []string)
 	wsOf := func(fd *ast.FuncDecl) (tables []string, calls []string) {
+		return wsOfD(fd, 0, map[*ast.FuncDecl]bool{})
+	}
+	wsOfD = func(fd *ast.FuncDecl, depth int, seen map[*ast.FuncDecl]bool) (tables []string, calls []string) {
+		if seen[fd] || depth > 3 || fd.Body == nil {
+			return
+		}
+		seen[fd] = true
 		ast.Inspect(fd.Body, func(n ast.Node) bool {
+			// the helpers of the package it uses (a scanner struct's methods, a predicate) classify for it
+			if call, ok := n.(*ast.CallExpr); ok {
+				if f := calleeOf(info, call); f != nil && f.Pkg() == c.pkg("interp").Types {
+					for _, d := range c.allFuncDecls("interp") {
+						if info.Defs[d.Name] == types.Object(f) {
+							t2, c2 := wsOfD(d, depth+1, seen)
+							tables = append(tables, t2...)
+							calls = append(calls, c2...)
+						}
+					}
+				}
+			}
+			// ... also when the predicate is handed on as a function value (sc.skipRun(isSpace))
+			if id, ok := n.(*ast.Ident); ok {
+				if f, ok := info.Uses[id].(*types.Func); ok && f.Pkg() == c.pkg("interp").Types {
+					for _, d := range c.allFuncDecls("interp") {
+						if info.Defs[d.Name] == types.Object(f) && d != fd {
+							t2, c2 := wsOfD(d, depth+1, seen)
+							tables = append(tables, t2...)
+							calls = append(calls, c2...)
+						}
+					}
+				}
+			}
 			switch x := n.(type) {
 			case *ast.IndexExpr:
 				if id, ok := x.X.(*ast.Ident); ok {
